@@ -18,8 +18,8 @@ use std::sync::Arc;
 pub const ID: &str = "C06";
 
 /// The quick sweep covers a fixed set of small fixtures: all four formats, VBA (xlsm and xls),
-/// tables, merged regions, annotations, repeated rows, rich text, BIFF5, a password file, CONTINUE records.
-const QUICK_SWEEP: [&str; 15] = [
+/// tables, merged regions, annotations, repeated rows, rich text, BIFF5, a password file, CONTINUE records, defined names / formulas / VBA in xls, formula records in xlsb.
+const QUICK_SWEEP: [&str; 17] = [
     "any_sheets.xls",
     "any_sheets.xlsx",
     "any_sheets.xlsb",
@@ -35,6 +35,8 @@ const QUICK_SWEEP: [&str; 15] = [
     "number_rows_repeated.ods",
     "pass_protected.xlsx",
     "picture.xls",
+    "issues.xls",
+    "issues.xlsb",
 ];
 
 pub struct Layout {
